@@ -378,9 +378,25 @@ def x_block_from(sel, exp, cte_names, values_alias):
     return blk, uuid, f"(XName {strlit(frm.this.name)})"
 
 
-def x_body(node, exp, cte_names, values_alias):
+def x_body(node, exp, cte_names, values_alias, uuid=False):
     klass = {"Union": "KUnion", "Intersect": "KIntersect", "Except": "KExcept"}
     t = type(node).__name__
+    frm = node.args.get("from") if isinstance(node, exp.Select) else None
+    if frm is not None and isinstance(frm.this, exp.Subquery):
+        # a de-duplicated set-operation CTE: SELECT <its columns> FROM (<set operation>) AS _dedup WHERE 'uuid' = 'uuid'
+        inner = frm.this.this
+        if type(inner).__name__ not in klass or frm.this.alias != "_dedup":
+            raise rel.NotExportable("subquery that is not a de-duplicated set operation")
+        for k, v in node.args.items():
+            if v and k not in ("expressions", "from", "where"):
+                raise rel.NotExportable(f"de-duplicating select arg {k}")
+        conj, has_uuid = _split_where(node, exp)
+        if conj or not has_uuid:
+            raise rel.NotExportable("de-duplicating select without exactly the uuid filter")
+        if not all(isinstance(e, exp.Column) and not e.table for e in node.expressions) \
+                or [e.name for e in node.expressions] != list(inner.named_selects):
+            raise rel.NotExportable("de-duplicating select does not select the set operation's columns in order")
+        return x_body(inner, exp, cte_names, values_alias, uuid=True)
     if t in klass:
         for k, v in node.args.items():
             if v and k not in ("this", "expression", "distinct", "with"):
@@ -392,7 +408,7 @@ def x_body(node, exp, cte_names, values_alias):
         br, ur, fr = x_block_from(node.expression, exp, cte_names, values_alias)
         if ul or ur:
             raise rel.NotExportable("uuid filter inside a set operation operand")
-        return f"(XSet {klass[t]} {boollit(d)} {bl} {fl} {br} {fr})"
+        return f"(XSet {klass[t]} {boollit(d)} {boollit(uuid)} {bl} {fl} {br} {fr})"
     blk, uuid, ref = x_block_from(node, exp, cte_names, values_alias)
     return f"(XSel {blk} {boollit(uuid)} {ref})"
 
@@ -689,6 +705,9 @@ def make_cases(ctx, rnd):
     ]
     for t in cor:
         cases.append(Case(tabs, t, origin="corpus"))
+    cases.append(Case(tabs, ("set", "unionByNameAllow", ("in", T_ID), ("in", 6)), origin="corpus"))
+    cases.append(Case(tabs, ("set", "intersectAll", ("ops", (("where", ("isnull", ("col", "a"))),), ("set", "union", ("in", 1), ("in", 2))),
+                             ("set", "union", ("in", 1), ("in", 2))), share=True, origin="corpus"))
     cases.append(Case(tabs, cor[5], share=True, origin="corpus"))
     cases.append(Case(tabs, cor[4], share=True, origin="corpus"))
     # bounded-exhaustive: every method x ordered pairs of operand tables (same table twice = common ancestor)
